@@ -295,6 +295,27 @@ let handle (line : string) : string =
     let r = if reply = "ERR" then M.GSockError else M.GReply (bytes_of_hex reply) in
     let (cmd, ok) = M.gpsd_transmit (bytes_of_hex dev) (bytes_of_hex h) r in
     Printf.sprintf "%s %s" (hex_of_bytes cmd) (show_res (fun b -> if b then "True" else "False") ok)
+  | "helper" :: fs :: name :: args ->
+    let fs = fields_of_string fs in
+    let z k = z_of_string (List.nth args k) in
+    let show fs' = string_of_fields fs' ^ " " ^ show_res hex_of_bytes (M.encode fs') in
+    (match name with
+     | "enable" -> show_res show (M.enable_gnss fs (z 0))
+     | "disable" -> show_res show (M.disable_gnss fs (z 0))
+     | "gps_glonass" -> show_res show (M.gps_glonass fs)
+     | "gps_galileo_beidou" -> show_res show (M.gps_galileo_beidou fs)
+     | "rate" -> show_res show (M.set_rate_in_hz fs (z 0))
+     | "save" -> show (M.cfg_save fs (z 0))
+     | "reset" -> show (M.cfg_reset fs (z 0))
+     | "warm" -> show (M.warm_start fs) | "cold" -> show (M.cold_start fs)
+     | "start" -> show (M.rst_start fs) | "stop" -> show (M.rst_stop fs)
+     | "esfla" -> show_res show (M.esfla_set fs (z 0) (z 1) (z 2) (z 3))
+     | "lever" -> show_res (function None -> "None"
+                                   | Some ((x, y), zz) -> Printf.sprintf "%s,%s,%s" (string_of_z x) (string_of_z y) (string_of_z zz))
+                    (M.lever_arm fs (z 0))
+     | "datetime" -> show (M.set_datetime fs (z 0) (z 1) (z 2) (z 3) (z 4) (z 5))
+     | "backup" -> show (M.sos_backup fs) | "clear" -> show (M.sos_clear fs)
+     | _ -> failwith "helper")
   | ["enc"; fs] ->
     show_res hex_of_bytes (M.encode (fields_of_string fs))
   | ["cpack"; it] ->
